@@ -221,16 +221,18 @@ def run_hypothesis(ctx, strategy, check, max_examples, label='main', rounds=4, s
             raise HarnessError(f'generator unsatisfiable in {ctx.prop}/{label}: {e}')
 
 
-def run_enumeration(ctx, cases, check, name, max_violations=5):
-    """Run `check` over a completely enumerated finite sub-domain."""
+def run_enumeration(ctx, cases, check, name, max_violations=5, secs=6):
+    """Run `check` over a completely enumerated finite sub-domain (`secs`: watchdog budget per case)."""
     n = 0
     for case in cases:
         n += 1
         try:
-            with watchdog():
+            with watchdog(secs):
                 check(case, ctx)
         except CaseTimeout:
             ctx.timeouts += 1
+            if len(ctx.inconclusive) < 3:
+                ctx.inconclusive.append(f'enumerated case abandoned by the watchdog after {secs}s: ' + json.dumps(case, default=repr)[:300])
         except (Violation, Exception) as v:  # noqa: BLE001
             if not isinstance(v, Violation):
                 lv = None if isinstance(v, HarnessError) else library_exception(v, case)
